@@ -2,7 +2,7 @@
 (* code -> spec batch oracle (E5) for C18: Value::GroupBy events.             *)
 (* Event {g, in, ok, out, unchanged}: in = the array (document), out = the     *)
 (* sequence of [name (text units), items (document)] of the grouped object.   *)
-EXTENDS QValue, Json, IOUtils
+EXTENDS QGroupImplDefs, Json, IOUtils
 Tr == ndJsonDeserialize(IOEnv.TRACE)
 VARIABLE l
 Expected(e) == LET gr == GroupBy(Unstrip(e.in), e.g) IN
@@ -12,11 +12,19 @@ EventOK(e) == LET arr == Unstrip(e.in) IN
               /\ GroupPartition(arr, e.g)               \* the specification's own partition property
               /\ e.ok = 1 /\ e.unchanged = 1
               /\ e.out = Expected(e)
+\* the representation the walk of QGroupImplDefs runs on: the logged slot layout (key ids, 0 = dead slot) with the members' values
+SlotsOf(e) == LET arr == Unstrip(e.in) IN
+    [i \in 1..Len(e.slots) |-> [j \in 1..Len(e.slots[i]) |->
+        IF e.slots[i][j] = 0 THEN Dead ELSE Slot(e.slots[i][j], arr.e[i].m[PosOf(arr.e[i].m, e.slots[i][j])].v)]]
+\* the transcription is what the engine does (else: model drift, not a violation)
+Drifts(e) == LET r == ImplGroupBy(SlotsOf(e), e.g, "current") IN
+             ~(r.ok = (e.ok = 1) /\ (r.ok => e.out = [i \in 1..Len(r.groups) |-> [name |-> r.groups[i].name, items |-> Strip(A(r.groups[i].items))]]))
 NB == 64
 BSize == (Len(Tr) + NB - 1) \div NB
 OInit == l = 0 /\ doc = [r \in Roots |-> U]
 ONext == /\ UNCHANGED doc
          /\ \/ l = 0 /\ l' \in {0 - b : b \in 1..NB}
             \/ l < 0 /\ l' \in {i \in (((0 - l) - 1) * BSize + 1)..((0 - l) * BSize) : i <= Len(Tr)}
-Check == l <= 0 \/ EventOK(Tr[l]) \/ PrintT(<<"MISMATCH", l>>)
+Check == /\ (l <= 0 \/ EventOK(Tr[l]) \/ PrintT(<<"MISMATCH", l>>))
+         /\ (l <= 0 \/ ~Drifts(Tr[l]) \/ PrintT(<<"DRIFT", l>>))
 =============================================================================
